@@ -278,13 +278,8 @@ func runC12(c *Ctx, w *World, r *Report) {
 			} else {
 				okForm := false
 				for _, s := range []ssa.Value{a, b} {
-					if tab, _, ok := asElemLoad(s); ok && isGlobal(tab, "bitmap", "Bit") {
+					if ms, ok := fa.MaskOf(s); ok && ms.Kind == "bit" {
 						okForm = true
-					}
-					if x, _, ok := asBin(s, token.SHL); ok {
-						if k, ok := constInt64(stripConv(x)); ok && k == 1 {
-							okForm = true
-						}
 					}
 				}
 				if !okForm {
